@@ -997,8 +997,23 @@ class Sim:
                 if _store(d, lsc, lhs, v):
                     changed = True
             for sc, body in d.comb:
-                if self._exec(sc, body, None):
+                # non-blocking assignments of one activation of the block take effect together after it (the last one to a
+                # target wins); the block "changed something" when a target ends up with another value than it had before
+                nba = []
+                if self._exec(sc, body, nba):
                     changed = True
+                if nba:
+                    pre = {}
+                    for nsc, l, v in nba:
+                        for nm in ([l.name] if l.kind != 'lconcat' else [p.name for p in l.parts]):
+                            sg = nsc.sigs.get(nm)
+                            if sg is not None and id(sg) not in pre:
+                                pre[id(sg)] = (sg, list(sg.value) if sg.depth is not None else sg.value)
+                    for nsc, l, v in nba:
+                        _store(d, nsc, l, v)
+                    for sg, old in pre.values():
+                        if (list(sg.value) if sg.depth is not None else sg.value) != old:
+                            changed = True
             if not changed:
                 return
         raise Oscillation('combinational logic did not settle in 200 passes')
